@@ -1252,7 +1252,8 @@ Section Faithful.
     match r with inl e => inl e | inr (x, R) => inr (rs x, rp R) end.
   Definition rmap_l (r : aerr + (list sfi * sresolved)) : aerr + (list fi * resolved) :=
     match r with inl e => inl e | inr (xs, R) => inr (map rs xs, rp R) end.
-  Definition r3 (a : sst3) : st3 := match a with (xs, l, R) => (map rs xs, rp l, rp R) end.
+  Definition r3 (a : sst3) : st3 :=
+    match a with (xs, l, R) => @pair (list fi * list (bytes * bytes)) resolved (map rs xs, rp l) (rp R) end.
   Definition rmap3 (r : aerr + sst3) : aerr + st3 := match r with inl e => inl e | inr a => inr (r3 a) end.
   Definition rkey (A : sargctx) : argctx := (fst A, option_map rd (snd A)).
 
@@ -1427,9 +1428,10 @@ Section Faithful.
       rewrite varpairs_render. destruct (svarpairs hv0 vars) as [e|vp]; [reflexivity|].
       rewrite extpairs_render, input_sig_render.
       specialize (Hsts lines (match SX (ap ++ sextpairs exts ++ vp) with Some s => s | None => sempty_list_hash end)
-                       ([], [], R)).
-      cbn [r3 map render_pairs] in Hsts. cbn [render_pairs map] . rewrite Hsts.
-      destruct (sana_steps hv0 hl0 sts lines _ ([], [], R)) as [e|[[inters loads] R1]]; [reflexivity|].
+                       (@pair (list sfi * list (bytes * dg)) sresolved ([], []) R)).
+      cbn [r3 map render_pairs] in Hsts. cbn [render_pairs map]. rewrite Hsts. clear Hsts.
+      match goal with |- context [sana_steps hv0 hl0 sts lines ?i ?a] =>
+        destruct (sana_steps hv0 hl0 sts lines i a) as [e|[[inters loads] R1]] end; [reflexivity|].
       cbn [rmap3 r3]. rewrite hash_lines_render. destruct (shash_lines hl0 lines) as [e|bsig]; [reflexivity|].
       rewrite siglist_render, dep_pairs_render.
       change ([(k_body_sig, rd bsig)]) with (rp [(k_body_sig, bsig)]).
